@@ -37,7 +37,7 @@ def _build_wcs(case):
     objs = {}
     for f in case["frames"]:
         if f["obj"] is not None:
-            o = G.frame_obj(f["name"], f["naxes"])
+            o = G.frame_obj(f["name"], f["naxes"], None, case.get("frame_unit"))      # (some cases: frames that declare a unit)
             objs[f["name"]] = o
             frames.append(o)
         else:
@@ -89,7 +89,10 @@ def impl(case):
                 try:
                     r = w.transform(ao, b, *G.to_float_pt(p), with_bounding_box=False)
                     no = len(r) if isinstance(r, tuple) else 1
-                    tv.append({"ok": G.canon_vals(r, no)})
+                    if any(hasattr(x, "unit") for x in (r if isinstance(r, tuple) else (r,))):
+                        tv.append({"quantity": str([getattr(x, "unit", None) for x in (r if isinstance(r, tuple) else (r,))])})   # numbers in, numbers out
+                    else:
+                        tv.append({"ok": G.canon_vals(r, no)})
                 except Exception as e:
                     tv.append({"err": C.exc_enum(e)})
             ex["transform"] = tv
@@ -375,4 +378,7 @@ def gen(rng, tier):
             idxs = sorted(rng.sample(range(dims[0]), k))
             queries.append({"k": "fix", "fixed": [[i, C.q2w(G.dyadic(rng, -4, 4, 2))] for i in idxs],
                             "pts": [G.point(rng, dims[0] - k) for _ in range(2)]})
-        yield {"frames": frames, "trs": trs, "dims": dims, "queries": queries}
+        case = {"frames": frames, "trs": trs, "dims": dims, "queries": queries}
+        if rng.random() < 0.3:
+            case["frame_unit"] = "pix"      # frames that declare a unit; the transforms carry none, the numbers go through untouched
+        yield case
